@@ -1,4 +1,5 @@
 import Vflow.Proofs.RoundV9
+import Vflow.Proofs.HeaderLayouts
 /-!
 # C06 — NetFlow v9: data records are decoded exactly as their templates describe
 
@@ -124,5 +125,48 @@ theorem k2_counterexample :
       .ok (Wire.V9.expectedHdr k2Msg, (Wire.V9.expected exAddr [] k2Msg).1.take 2, []) ∧
     Wire.V9.recLen k2Tpl = 4 := by
   refine ⟨by rfl, by rfl, by rfl⟩
+
+/-! ## Tie: the fixed-layout readers of the model read the layouts REGENERATED from the decoder source
+(`Gen.Layouts.*`, re-extracted from the `unmarshal` chains on every run; proofs in `Proofs/HeaderLayouts.lean`) -/
+theorem gen_header_layout (r : Rd) : V9.readHeader r = V5.readFields (V5.widths Gen.Layouts.v9Header) r :=
+  HeaderLayouts.v9_header r
+theorem gen_setHeader_layout (addr : Bytes) (fuel : Nat) (st : V9.St) (sid len : Nat) (r2 : Rd)
+    (h : V5.readFields (V5.widths Gen.Layouts.v9SetHeader) st.r = some ([sid, len], r2)) :
+    V9.decodeSet addr fuel st =
+      if len < 4 then ({ st with r := r2 }, some .badSetLen)
+      else V9.setBody addr sid len st.r.cnt fuel { st with r := r2 } :=
+  HeaderLayouts.v9_setHeader_read addr fuel st sid len r2 h
+theorem gen_setHeader_short (addr : Bytes) (fuel : Nat) (st : V9.St)
+    (h : V5.readFields (V5.widths Gen.Layouts.v9SetHeader) st.r = none) :
+    (V9.decodeSet addr fuel st).2 = some .short := HeaderLayouts.v9_setHeader_short addr fuel st h
+theorem gen_tplHeader_layout (r : Rd) (tid n : Nat) (r2 : Rd)
+    (h : V5.readFields (V5.widths Gen.Layouts.v9TplHeader) r = some ([tid, n], r2)) :
+    V9.parseTpl r = (match V9.readSpecs n r2 [] with
+      | (.ok fs, r3) => (.ok ⟨tid, n, 0, [], fs⟩, r3)
+      | (.error e, r3) => (.error e, r3)) := HeaderLayouts.v9_tplHeader_read r tid n r2 h
+theorem gen_tplHeader_short (r : Rd) (h : V5.readFields (V5.widths Gen.Layouts.v9TplHeader) r = none) :
+    (V9.parseTpl r).1 = .error .short := HeaderLayouts.v9_tplHeader_short r h
+theorem gen_optTplHeader_short (r : Rd) (h : V5.readFields (V5.widths Gen.Layouts.v9OptTplHeader) r = none) :
+    (V9.parseOptTpl r).1 = .error .short := HeaderLayouts.v9_optTplHeader_short r h
+theorem gen_layout_field_names :
+    Gen.Layouts.v9Header.map (·.1) = ["Version", "Count", "SysUpTime", "UNIXSecs", "SeqNum", "SrcID"] ∧
+    Gen.Layouts.v9SetHeader.map (·.1) = ["FlowSetID", "Length"] ∧
+    Gen.Layouts.v9TplHeader.map (·.1) = ["TemplateID", "FieldCount"] ∧
+    Gen.Layouts.v9OptTplHeader.map (·.1) = ["TemplateID", "OptionScopeLen", "OptionLen"] ∧
+    Gen.Layouts.v9FieldSpec.map (·.1) = ["ElementID", "Length"] := by decide
+theorem gen_optTplHeader_layout (r : Rd) (tid sl ol : Nat) (r3 : Rd)
+    (h : V5.readFields (V5.widths Gen.Layouts.v9OptTplHeader) r = some ([tid, sl, ol], r3)) :
+    V9.parseOptTpl r =
+      (match V9.readSpecs (sl / 4) r3 [] with
+       | (.error e, r4) => (.error e, r4)
+       | (.ok scs, r4) =>
+         match V9.readSpecs (ol / 4) r4 [] with
+         | (.error e, r5) => (.error e, r5)
+         | (.ok fs, r5) => (.ok ⟨tid, 0, 0, scs, fs⟩, r5)) := HeaderLayouts.v9_optTplHeader_read r tid sl ol r3 h
+theorem gen_fieldSpec_layout (r : Rd) (id len : Nat) (r2 : Rd)
+    (h : V5.readFields (V5.widths Gen.Layouts.v9FieldSpec) r = some ([id, len], r2)) :
+    V9.readSpec r = (.ok ⟨id, len, 0⟩, r2) := HeaderLayouts.v9_fieldSpec_read r id len r2 h
+theorem gen_fieldSpec_short (r : Rd) (h : V5.readFields (V5.widths Gen.Layouts.v9FieldSpec) r = none) :
+    (V9.readSpec r).1 = .error .short := HeaderLayouts.v9_fieldSpec_short r h
 
 end Vflow.C06
